@@ -20,6 +20,9 @@ fn fixed_templates() -> Vec<Vec<Node>> {
         vec![Node::Incr("n".into()), cyc.clone(),
              Node::For { x: "i".into(), rng: RangeE::Counted(lit_i(1), lit_i(3)), limit: None, offset: None, rev: false,
                          body: vec![out(var("i")), Node::Capture("c".into(), vec![Node::Include(lit_s("broken"), vec![])])], els: None }],
+        // fails inside a capture AFTER the body has written text; then (other renders) captures again
+        vec![Node::Capture("c".into(), vec![text("partial-output,"), out(path("probe", &["x"])), text("!")]), text("<"), out(var("c")), text(">"),
+             Node::Include(var("which"), vec![])],
         // reads everything the others may have left behind; ends with a pending break
         vec![out(path("probe", &["x"])), Node::Decr("n".into()), cyc, text("["),
              Node::Cond { c: Cond::Exist(var("a")), mode: true, thn: vec![text("LEAK-a")], els: None, elsif: false },
@@ -31,11 +34,17 @@ fn fixed_templates() -> Vec<Vec<Node>> {
 fn emit_history(ctx: &mut Ctx, kind: &str, templates: &[Vec<Node>], datas: &[Object], partials: &[PartialDef], hist: &[(usize, usize)]) {
     let shared = build_parser(partials, Policy::Lazy);
     let parsed: Vec<_> = templates.iter().map(|t| src_tmpl(t)).collect();
+    // every template is parsed ONCE on the shared parser; the history renders these same objects
+    let objects: Vec<_> = parsed.iter().map(|s| parse_once(&shared, s)).collect();
     for (pos, (ti, di)) in hist.iter().enumerate() {
         let before = serde_json::to_string(&datas[*di]).unwrap();
-        let got = render_text(&shared, &parsed[*ti], &datas[*di]);
+        let got = render_parsed(&objects[*ti], &datas[*di]);
         let after = serde_json::to_string(&datas[*di]).unwrap();
-        let fresh = render_text(&build_parser(partials, Policy::Lazy), &parsed[*ti], &datas[*di]);
+        // the reference: a freshly built parser, a fresh parse, on a fresh OS thread (so that not even
+        // thread-local state of this thread can be shared with the history)
+        let fresh = std::thread::scope(|sc| {
+            sc.spawn(|| render_text(&build_parser(partials, Policy::Lazy), &parsed[*ti], &datas[*di])).join().unwrap_or(Obs::Panic("reference thread".into()))
+        });
         let k = if got.tokens() != fresh.tokens() {
             format!("LEAK:{}:{}", hist.len(), pos)
         } else if before != after {
@@ -51,12 +60,14 @@ pub fn run(ctx: &mut Ctx) {
     // --- fixed set, exhaustive histories k <= 3 (thorough: 4) ---
     let templates = fixed_templates();
     let p1: Vec<Node> = vec![text("<p1:"), Node::Incr("n".into()), Node::Assign("a".into(), lit_s("p"), vec![]), text(">")];
-    let partials: Vec<PartialDef> = vec![("p1".into(), Ok(p1)), ("broken".into(), Err("{% for %}".into()))];
+    let partials: Vec<PartialDef> = vec![("p1".into(), Ok(p1)), ("p2".into(), Ok(vec![text("<p2>")])), ("broken".into(), Err("{% for %}".into()))];
     let mut d0 = Object::new();
     d0.insert("probe".into(), { let mut o = Object::new(); o.insert("x".into(), Value::scalar("X")); Value::Object(o) });
-    let d1 = Object::new(); // `probe.x` missing: template 3 fails at its first tag
+    d0.insert("which".into(), Value::scalar("p1"));
+    let mut d1 = Object::new(); // `probe.x` missing: the probing templates fail at their first read of it
+    d1.insert("which".into(), Value::scalar("p2"));
     let datas = vec![d0, d1];
-    let calls: Vec<(usize, usize)> = (0..3).flat_map(|t| (0..2).map(move |d| (t, d))).collect();
+    let calls: Vec<(usize, usize)> = (0..templates.len()).flat_map(|t| (0..2).map(move |d| (t, d))).collect();
     let maxk = if ctx.tier_thorough { 4 } else { 3 };
     for k in 1..=maxk {
         let mut idx = vec![0usize; k];
@@ -90,7 +101,9 @@ pub fn run(ctx: &mut Ctx) {
         let mut datas = vec![sc.data.clone()];
         for _ in 0..(1 + g.rng.below(2)) {
             let mut d = g.data();
-            d.insert("pname".into(), sc.data.get("pname").cloned().unwrap_or(Value::Nil));
+            let names: Vec<String> = sc.partials.iter().map(|(n, _)| n.clone()).collect();
+            let pn = if names.is_empty() || g.rng.chance(1, 3) { sc.data.get("pname").cloned().unwrap_or(Value::Nil) } else { Value::scalar(g.rng.pick(&names).clone()) };
+            d.insert("pname".into(), pn);
             datas.push(d);
         }
         let k = 1 + g.rng.below(6);
